@@ -22,7 +22,7 @@ ASSUMPTIONS = [
     "configurations: cycle budgets from 1, population sizes at and above the documented (fixture) scale, other algorithm parameters at their documented values",
     "a run that is still going after 120 s is reported as non-termination (timeout) rather than waited for",
 ]
-MODULES = ["PvModel.Props.C06", "PvModel.Props.T04", "PvModel.Props.R00", "PvModel.Props.R02"]
+MODULES = ["PvModel.Props.C06", "PvModel.Props.T04", "PvModel.Props.R00", "PvModel.Props.R02", "PvModel.Props.T02"]
 
 
 def invalid_calls(ctx):
